@@ -24,7 +24,7 @@ Nothing here executes repository code.
 """
 import ast
 from ..index import AnalysisError, dotted
-from ..astutil import text, walk_no_nested, calls_in, stmt_defs
+from ..astutil import text, short, walk_no_nested, calls_in, stmt_defs
 
 
 # ------------------------------------------------------------------------------------------
